@@ -243,6 +243,12 @@ def acc2(cfg):
                         restart = ret_opt and isinstance(x, dict) and ((x.get('k') == 'call' and x.get('ck') == 'ctor' and not x.get('args')) or (x.get('k') == 'initlist' and not x.get('args')))
                         if not restart:
                             bad.extend(judge(ev, e.get('loc')))
+                        else:
+                            # an abandoned attempt: the speculative node is freed again and its node count / memory rolled back
+                            # by its deleter; the monotone counters have no rollback, so nothing may have been accounted yet
+                            acc_ = [k_ for k_, t_ in ev if k_ in ('grow', 'shrink', 'split')]
+                            if acc_:
+                                bad.append((e.get('loc'), 'a path that abandons the attempt with the restart result has already accounted %s: every lost race moves a monotone counter although no node was created, replaced or dissolved' % sorted(set(acc_))))
                 if len(ev) > 8:
                     ev = ev[:8]
                 out.add(tuple(ev))
